@@ -6,7 +6,7 @@
 From Coq Require Import List String Ascii Arith Bool Lia.
 From PC Require Import Base.Codes Comp.Syntax Comp.Compile Comp.EmitProofs Design.Propagate Design.PropagateProofs Design.Designer Design.DesignerProofs
   Design.TemplateProofs Design.Contraction Design.DGraph Design.DenoteGraph Design.DenoteTie Design.DenoteSat Design.Results Design.ResultsProofs
-  Design.LoadProofs Design.SeedProofs Design.LayoutProofs.
+  Design.LoadProofs Design.SeedProofs Design.LayoutProofs Design.ContractProofs SSM.Contract.
 Import ListNotations.
 Local Open Scope list_scope.
 
@@ -67,6 +67,11 @@ End Loaded.
 Definition loaded_design_results_ok ls p lay g nts (LOAD : load_spec ls pspec0 = OK p) (SEED : seed p false = OK (lay, g)) :=
   design_results_ok_wf p lay false g nts SEED (loaded_wf ls p LOAD) (loaded_dgraph ls p lay g LOAD SEED) (loaded_same p lay g SEED)
     (loaded_graph_ok ls p lay g LOAD SEED) (loaded_place ls p lay g LOAD SEED).
+
+(* C05: the files written for a loaded document satisfy the spuriousSSM input contract *)
+Theorem loaded_files_contract ls p lay g e w s : load_spec ls pspec0 = OK p -> seed p false = OK (lay, g) ->
+  get_constraints p false = DOk e w s -> contract_ok (map eq_map e) (map wc_map w) (map st_map s) = true.
+Proof. intros L S A. apply (files_contract p false lay g S (loaded_graph_ok ls p lay g L S) e w s A). Qed.
 
 (* a document that the loader accepts either has no graph (an internal error of seed) or is covered *)
 Theorem design_arrays_cases ls : (exists k, design_arrays ls false = DErr k) \/
